@@ -22,6 +22,7 @@ import (
 	"github.com/kardiachain/go-kardia/lib/common"
 	"github.com/kardiachain/go-kardia/lib/crypto"
 	"github.com/kardiachain/go-kardia/lib/log"
+	"github.com/kardiachain/go-kardia/lib/p2p"
 	"github.com/kardiachain/go-kardia/mainchain/blockchain"
 	"github.com/kardiachain/go-kardia/mainchain/genesis"
 	"github.com/kardiachain/go-kardia/mainchain/staking"
@@ -338,6 +339,7 @@ func (net *vfNet) regossip(pos int, full bool) {
 	passes := 1
 	if full {
 		passes = 2
+		net.maj23Gossip(pos)
 	}
 	for pass := 0; pass < passes; pass++ {
 		h := n.cs.Height
@@ -354,6 +356,39 @@ func (net *vfNet) regossip(pos int, full bool) {
 		}
 		if n.cs.Height == h {
 			net.offered[pos][h] = len(msgs)
+		}
+	}
+}
+
+// maj23Gossip plays the role of the reactor's queryMaj23Routine + VoteSetMaj23 handling for one
+// node: every +2/3 majority another correct node has seen at this node's height (prevotes of any
+// round, and the commit of a height the other node has already stored) is claimed to it, so that
+// votes which conflict with what an equivocating validator told this node can still be added.
+func (net *vfNet) maj23Gossip(pos int) {
+	n := net.nodes[pos]
+	h := n.cs.Height
+	for j, m := range net.nodes {
+		if j == pos {
+			continue
+		}
+		peer := p2p.ID(fmt.Sprintf("node%d", m.idx))
+		if m.cs.Height == h {
+			for r := uint32(1); r <= m.cs.Round; r++ {
+				if pv := m.cs.Votes.Prevotes(r); pv != nil {
+					if id, ok := pv.TwoThirdsMajority(); ok {
+						_ = n.cs.Votes.SetPeerMaj23(r, kproto.PrevoteType, peer, id)
+					}
+				}
+				if pc := m.cs.Votes.Precommits(r); pc != nil {
+					if id, ok := pc.TwoThirdsMajority(); ok {
+						_ = n.cs.Votes.SetPeerMaj23(r, kproto.PrecommitType, peer, id)
+					}
+				}
+			}
+		} else if m.bo.Height() >= h {
+			if c := m.bo.LoadSeenCommit(h); c != nil {
+				_ = n.cs.Votes.SetPeerMaj23(c.Round, kproto.PrecommitType, peer, c.BlockID)
+			}
 		}
 	}
 }
